@@ -1,6 +1,6 @@
-// Command seams rewrites, in a scratch copy of the repository, every read of the wall clock in non-test code
-// (time.Now, time.Since, time.Until, time.Sleep) into a call of the simulated clock in package verifsim, and records
-// how many such sites there are. Purely syntactic (go/parser); at the pinned commit there are none and no file changes.
+// Command seams rewrites, in a scratch copy of the repository, every use of the wall clock in non-test code
+// (time.Now, Since, Until, Sleep, AfterFunc, NewTimer, After, NewTicker, Tick and the types time.Timer / time.Ticker)
+// into its simulated counterpart in package verifsim, and records how many such sites there are. Purely syntactic (go/parser); at the pinned commit there are none and no file changes.
 //
 //	seams <repo copy> <module path>
 package main
@@ -17,7 +17,9 @@ import (
 	"strings"
 )
 
-var clockFuncs = map[string]bool{"Now": true, "Since": true, "Until": true, "Sleep": true}
+// functions and types of package time that have a simulated counterpart in verifsim
+var clockFuncs = map[string]bool{"Now": true, "Since": true, "Until": true, "Sleep": true,
+	"AfterFunc": true, "NewTimer": true, "After": true, "NewTicker": true, "Tick": true, "Timer": true, "Ticker": true}
 
 func main() {
 	if len(os.Args) != 3 {
